@@ -84,7 +84,7 @@ impl WriteBufferManager {
 //@end
 
 pub struct Ingestion<'a> { pub keyspace: &'a Keyspace, pub inner: AnyIngestion }   // src/ingestion.rs (fields; AnyIngestion<'a> lifetime dropped)
-//@extract src/ingestion.rs :: Ingestion<'a> :: finish world props=C01+C04+C06
+//@extract src/ingestion.rs :: Ingestion<'a> :: finish world props=C01+C04+C06+C10+C02
 //@contract-file fn/ingest_finish.c
 //@end
 
